@@ -1572,6 +1572,11 @@ bool Parser::parseTagTypeSpecifier_AtFirst(
         bool (Parser::*parseMember)(DeclarationSyntax*&))
 {
     DBG_THIS_RULE();
+
+    DepthControl _(DEPTH_OF_DECLS_,
+                   MAX_DEPTH_OF_DECLS,
+                   "maximum depth of declarations reached");
+
     PSY_ASSERT_3((peek().kind() == SyntaxKind::Keyword_struct
                         || peek().kind() == SyntaxKind::Keyword_union
                         || peek().kind() == SyntaxKind::Keyword_enum)
@@ -1942,6 +1947,10 @@ bool Parser::parseDeclarator(DeclaratorSyntax*& decltor,
 {
     DBG_THIS_RULE();
 
+    DepthControl _(DEPTH_OF_DECLS_,
+                   MAX_DEPTH_OF_DECLS,
+                   "maximum depth of declarators reached");
+
     SpecifierListSyntax* attrList = nullptr;
     if (peek().kind() == SyntaxKind::Keyword_ExtGNU___attribute__
             && !parseExtGNU_AttributeSpecifierList_AtFirst(attrList))
@@ -2173,6 +2182,10 @@ bool Parser::parseDirectDeclaratorSuffix(DeclaratorSyntax*& decltor,
                                          SpecifierListSyntax* attrList,
                                          DeclaratorSyntax* innerDecltor)
 {
+    DepthControl _(DEPTH_OF_DECLS_,
+                   MAX_DEPTH_OF_DECLS,
+                   "maximum depth of declarators reached");
+
     auto validateContext =
             [this, declCtx] (void (Parser::DiagnosticsReporter::*report)()) {
                 if (declCtx != DeclarationContext::Parameter) {
@@ -2481,6 +2494,10 @@ bool Parser::parseExpressionInitializer(InitializerSyntax*& init)
 bool Parser::parseBraceEnclosedInitializer_AtFirst(InitializerSyntax*& init)
 {
     DBG_THIS_RULE();
+
+    DepthControl _(DEPTH_OF_EXPRS_,
+                   MAX_DEPTH_OF_EXPRS,
+                   "maximum depth of expressions reached");
     PSY_ASSERT_3(peek().kind() == SyntaxKind::OpenBraceToken,
                   return false,
                   "expected `{'");
